@@ -64,6 +64,7 @@ class TcpConn(object):
         self.s2c_consumed = 0      # bytes returned by read()
         self.s2c_eof = False       # FIN delivered to client
         self.s2c_rst = False
+        self.rst_err = False
         self.s2c_fin_queued = False
         self._last_arrival = 0
         self.server_closed = False
@@ -151,8 +152,12 @@ class TcpConn(object):
         self._last_arrival = t
 
         def rst():
+            # as on Linux: what arrived before the reset stays readable; the
+            # error is reported once (to the next send, or to the first read
+            # that finds the buffer empty), after that reads see
+            # end-of-stream and sends a broken pipe
             self.s2c_rst = True
-            del self.s2c_avail[:]
+            self.rst_err = True
             self.sim.dirty = True
             self.sim.log('rst-at-client', self.index)
         self.sim.at(t, rst, 'rst[%d]' % self.index)
@@ -252,8 +257,12 @@ class SimSocket(object):
         if conn.local_shutdown or conn.local_wr_shutdown:
             raise BrokenPipeError(errno.EPIPE, 'Broken pipe')
         if conn.s2c_rst:
-            raise ConnectionResetError(errno.ECONNRESET,
-                                       'Connection reset by peer')
+            if conn.rst_err:
+                conn.rst_err = False
+                sim.log('send-rst', conn.index)
+                raise ConnectionResetError(errno.ECONNRESET,
+                                           'Connection reset by peer')
+            raise BrokenPipeError(errno.EPIPE, 'Broken pipe')
         if self.net.eagain_sends and self.net.sends_seen in \
                 self.net.eagain_sends:
             # a non-blocking socket whose send buffer is momentarily full
@@ -350,11 +359,12 @@ def _read(sock, n):
             conn.s2c_consumed += k
             sim.log('read', (conn.index, n, k))
             return data
-        if conn.s2c_rst:
+        if conn.s2c_rst and conn.rst_err:
+            conn.rst_err = False
             sim.log('read-rst', conn.index)
             raise ConnectionResetError(errno.ECONNRESET,
                                        'Connection reset by peer')
-        if conn.s2c_eof or conn.local_shutdown:
+        if conn.s2c_eof or conn.local_shutdown or conn.s2c_rst:
             conn.eof_reads += 1
             sim.log('read-eof', (conn.index, conn.eof_reads))
             lim = net.eof_read_limit
